@@ -31,6 +31,9 @@ type Case struct {
 	// ReadFiles: files (relative to the worker's private cwd) read back and removed after the program ran
 	ReadFiles []string `json:"read_files,omitempty"`
 	FIDCheck  bool     `json:"fid_check,omitempty"`
+	// Drain: read the program's stdout/stderr concurrently (lifts the 1 MiB
+	// buffer limit like a terminal would); needed for outputs above 1 MiB
+	Drain bool `json:"drain,omitempty"`
 	TimeoutMs int      `json:"timeout_ms,omitempty"`
 	// IdleMs: wait after the program so that deferred goroutines fire
 	IdleMs int             `json:"idle_ms,omitempty"`
